@@ -235,3 +235,6 @@ OBLIGATIONS = [
                 'reported by the real threading.Semaphore blocking - excluded by pruning (see C04 for blocking)',
          encodes=['BoundedExecutor.submit', 'ExecutorFuture.add_done_callback', 'TaskSemaphore'], assumptions=[]),
 ] + _occ()
+
+from harness.corace import OB_SEMP, sliding_window_preempt  # noqa: E402
+OBLIGATIONS += [dict(OB_SEMP, id='C10.5')]
